@@ -49,6 +49,10 @@ Definition isort (l : list nat) : list nat := fold_right insert [] l.
 Definition find_names (sy : nat -> option sym) (scope_type : nat) (flag : N) (keys : list nat) : list nat :=
   isort (filter (fun k => match sy k with Some (sc, fl) => Nat.eqb sc scope_type || has fl flag | None => false end) keys).
 
+(* symtable.AnalyzeBlock: for name := range st.Symbols { names = append(names, name) }; sort.Strings(names):
+   the keys of the map, sorted, are what the following (slice) loop visits *)
+Definition sorted_keys (keys : list nat) : list nat := isort keys.
+
 (* parser.init: for k, v := range operators -> tokenToString[v] = k   (and the same for tokens):
    inverting a map; entries are (string id, token id) *)
 Definition invert_step (m : nat -> option nat) (kv : nat * nat) := upd m (snd kv) (Some (fst kv)).
